@@ -124,3 +124,30 @@ Example check_fan_ex :
   check_fan (mkCase19F (mkCase19 k "ESOuoCcsSOuoCcsedR") "sbEasapaqa" "Eapasbsasapasbsaqa") = false /\
   check_fan (mkCase19F (mkCase19 k "ESOuoCcsSOuoCcsedR") "sbEasapaqa" "Easbpasapasbsaqa") = false.
 Proof. vm_compute. repeat split; reflexivity. Qed.
+
+(** ** The data argument of the stack callbacks (model/DebugStackData.v; round 8).
+    A case is the sequence of stack callbacks observed in one run of the real engine with a read-only debugger: for
+    every BeforeStackPush / AfterStackPush / BeforeStackPop / AfterStackPop the two stacks of the State it was shown
+    (top first) and the item it was handed; the lifecycle callbacks in between are marks.
+    [check_data]: the sequence is accepted by [data_ok] - the item AfterStackPush reports is the item BeforeStackPush
+    announced and the new top of the one stack that grew, AfterStackPop reports the item the one stack that shrank lost,
+    a pop without after-callback saw an empty stack and ends the run - the checker that accepts every trace of the
+    instrumented two-stack machine ([irun_data_ok]) and is the inductive specification [DataOK] ([data_ok_iff]). *)
+From GoBT Require Import model.DebugStackData.
+
+Record case19d := mkCase19D { k19d_events : list sev }.
+
+Definition check_data (k : case19d) : bool := data_ok (k19d_events k).
+Definition mismatches_data := mismatches_with check_data.
+
+Example check_data_ex :
+  (* OP_1 OP_7 | OP_TOALTSTACK: E S O (push 01) o s S O (push 07) o C c s S O (pop 07) (push 07 on alt) o (alt dropped) C c s e (pop) K *)
+  check_data (mkCase19D [SMark; SBeforePush (mkStacks [] []) (unhex "01"); SAfterPush (mkStacks [unhex "01"] []) (unhex "01"); SMark;
+     SBeforePush (mkStacks [unhex "01"] []) (unhex "07"); SAfterPush (mkStacks [unhex "07"; unhex "01"] []) (unhex "07"); SMark;
+     SBeforePop (mkStacks [unhex "07"; unhex "01"] []); SAfterPop (mkStacks [unhex "01"] []) (unhex "07");
+     SBeforePush (mkStacks [unhex "01"] []) (unhex "07"); SAfterPush (mkStacks [unhex "01"] [unhex "07"]) (unhex "07"); SMark;
+     SBeforePop (mkStacks [unhex "01"] [unhex "07"]); SAfterPop (mkStacks [unhex "01"] []) (unhex "07"); SMark;
+     SBeforePop (mkStacks [unhex "01"] []); SAfterPop (mkStacks [] []) (unhex "01"); SMark]) = true /\
+  (* AfterStackPush handed the top of the data stack for the push onto the alt stack *)
+  check_data (mkCase19D [SBeforePush (mkStacks [unhex "01"] []) (unhex "07"); SAfterPush (mkStacks [unhex "01"] [unhex "07"]) (unhex "01")]) = false.
+Proof. vm_compute. split; reflexivity. Qed.
